@@ -96,7 +96,7 @@ def parse_cosmology(cosmology: TypeCosmology | str | None) -> TypeCosmology:
     elif isinstance(cosmology, str):
         return yaml_to_cosmology(cosmology)
 
-    elif not isinstance(cosmology, get_args(TypeCosmology)):
+    elif not isinstance(cosmology, (astropy.cosmology.FLRW, CustomCosmology)):
         which = ", ".join(str(c) for c in get_args(TypeCosmology))
         raise ConfigError(f"'cosmology' must be instance of: {which}")
 
